@@ -86,6 +86,38 @@ func runC19(c *Ctx) {
 				p = ctr.Add(vector3.New(b.X()/2, (c.Rng.Float64()-0.5)*b.Y()*2, (c.Rng.Float64()-0.5)*b.Z()*2))
 				c.Note("box.faceplane")
 			}
+			if c.Rng.Intn(4) == 0 {
+				// exact TIES between the per-axis excesses |p-c| - b/2: cubes and square prisms with dyadic
+				// centre and sizes, probed on diagonal planes, edge midpoints and at the centre
+				ctr = vector3.New(math.Round(ctr.X()*2)/2, math.Round(ctr.Y()*2)/2, math.Round(ctr.Z()*2)/2)
+				s1, s2 := float64(c.Rng.Intn(3)+1), float64(c.Rng.Intn(3)+1)
+				switch c.Rng.Intn(3) {
+				case 0:
+					b = vector3.New(s1, s1, s1)
+				case 1:
+					b = vector3.New(s1, s1, s2)
+				default:
+					b = vector3.New(s1, s2, s1)
+				}
+				f = sdf.Box(ctr, b)
+				e := float64(c.Rng.Intn(9)-2) / 4 // common excess, in or outside
+				sg := func() float64 { return float64(c.Rng.Intn(2)*2 - 1) }
+				w := (c.Rng.Float64() - 0.5) * 4
+				if c.Rng.Intn(3) == 0 {
+					w = 0
+				}
+				switch c.Rng.Intn(4) {
+				case 0: // x/y tie
+					p = ctr.Add(vector3.New(sg()*(b.X()/2+e), sg()*(b.Y()/2+e), w))
+				case 1: // x/z tie
+					p = ctr.Add(vector3.New(sg()*(b.X()/2+e), w, sg()*(b.Z()/2+e)))
+				case 2: // y/z tie
+					p = ctr.Add(vector3.New(w, sg()*(b.Y()/2+e), sg()*(b.Z()/2+e)))
+				default: // all three
+					p = ctr.Add(vector3.New(sg()*(b.X()/2+e), sg()*(b.Y()/2+e), sg()*(b.Z()/2+e)))
+				}
+				c.Note("box.exact_tie")
+			}
 			c.Emit("c19.box", vF(ctr)+" "+vF(b)+" "+vF(p), F(f(p)))
 			c.Emit("c19.holds.box", vF(ctr)+" "+vF(b)+" "+vF(p)+" "+F(f(p)), "true")
 			lip(f, p, q)
@@ -116,6 +148,18 @@ func runC19(c *Ctx) {
 			case 1:
 				p = a.Sub(b.Sub(a).Scale(c.Rng.Float64()*2)).Add(c.pt(0.1))
 				c.Note("line.before_start")
+			case 2:
+				p = a.Add(b.Sub(a).Scale(c.Rng.Float64())) // on the segment itself (true value -r)
+				c.Note("line.on_segment")
+			case 3:
+				// a diagonal segment with dyadic ends and a point exactly on it: k/8 of the way
+				a = vector3.New(math.Round(ctr.X()), math.Round(ctr.Y()), math.Round(ctr.Z()))
+				d := float64(c.Rng.Intn(3) + 1)
+				dir := [][3]float64{{1, 1, 1}, {1, 1, 0}, {1, -1, 1}, {0, 1, 1}, {1, 2, 3}}[c.Rng.Intn(5)]
+				b = a.Add(vector3.New(dir[0]*d, dir[1]*d, dir[2]*d))
+				f = sdf.Line(a, b, r)
+				p = a.Add(b.Sub(a).Scale(float64(c.Rng.Intn(9)) / 8))
+				c.Note("line.on_diagonal_exact")
 			}
 			c.Emit("c19.line", vF(a)+" "+vF(b)+" "+F(r)+" "+vF(p), F(f(p)))
 			c.Emit("c19.holds.line", vF(a)+" "+vF(b)+" "+F(r)+" "+vF(p)+" "+F(f(p)), "true")
